@@ -163,7 +163,10 @@ def rets(P):
     c = P['cls'][0]
     return [single(T('void')), single(T('size_t')), single(T(P['ns'][0] + '::' + c, 1, '&')),
             pair(T(c, 0, '*'), T('double')), pair(T('int'), T(c, 1, '@'), std=1),
-            single(T(P['tpl'][0], 0, '*', [T(c, 1, '&')]))]
+            single(T(P['tpl'][0], 0, '*', [T(c, 1, '&')])),
+            # a pair type that itself carries a qualifier is an ordinary templated type named pair
+            single(T('pair', 0, '&', [T(c), T('double')])), single(T('std::pair', 1, '*', [T('int'), T(c)])),
+            single(T('pair', 0, '@', [T(c, 0, '*'), T('int')]))]
 
 
 def arglists(P, maxn):
